@@ -195,6 +195,7 @@ def _work(args):
                 seen_cls[c] = seen_cls.get(c, 0) + 1
                 agg["viol"].append((index, canon(v.plan if v.plan is not None else plan), v.to_json()))
         if out.digest == "hang":
+            agg["hang"] = True
             break   # one watchdog hit is enough for this chunk: the rest would only burn the chunk's wall budget
     faulthandler.cancel_dump_traceback_later()
     return agg
@@ -302,11 +303,18 @@ def run_batch(check, tier, seed, runs=None, workers=None, verbose=True):
             deadline = time.time() + (1500 if tier == "quick" else 6 * 3600)
             try:
                 for fu in futs:
+                    if fu.cancelled():
+                        continue
                     agg = fu.result(timeout=max(1, deadline - time.time()))
                     if "error" in agg:
                         errors.append(agg["error"])
                         break
                     _merge(total, agg)
+                    if agg.get("hang"):
+                        # a confirmed livelock costs two watchdog periods of CPU per run: what has been found is reported, the
+                        # chunks that have not started yet are dropped (the verdict is a VIOLATION either way)
+                        for fu2 in futs:
+                            fu2.cancel()
             except (cf.TimeoutError, cf.process.BrokenProcessPool) as e:
                 errors.append("worker died or timed out: %r" % (e,))
             if errors:
